@@ -254,3 +254,227 @@ def call (bs : Bits) (pos : Nat) (cur : Endian) (method : List Nat) (actual : Li
     | some av => (runCore bs pos fn av).map (applyLayer layer pos)
 
 end FqModel.C02
+
+/-! ### read histories on ONE decoder (decode.go: the read path between two reads)
+
+  The decoder's state in the model is `(den, pos)`: the denotation of its buffer and the bit position.
+  Nothing else survives a read — in particular not the contents of the shared read buffer
+  (decode.go:317 SharedReadBuf, which TryBits fills and the little-endian readers byte-reverse in
+  place, and which `fieldDecoder` (decode.go:241) hands to every child decoder).  `execStep` threads
+  `pos` through the steps exactly as the Go methods do (seek, read, peek = read + seek back, child
+  decoders on the same or on a range-limited buffer); `stepObs` is the SINGLE-READ description of a
+  step, a function of `(den, step)` only.  Props.C02 `read_history_stateless`: they agree on every
+  history.  The harness' `histories` run replays 2..6-step histories on one real decoder. -/
+namespace FqModel.C02
+open FqModel FqModel.Scalar
+
+def kTryUintBits : List Nat := [84, 114, 121, 85, 105, 110, 116, 66, 105, 116, 115]
+def kTryBits : List Nat := [84, 114, 121, 66, 105, 116, 115]
+
+/-- the two readers of decode.go without a generated wrapper: TryUintBits (:418), TryBits (:389) -/
+def rawCall (bs : Bits) (pos : Nat) (method : List Nat) (av : List ArgVal) : Option Obs :=
+  match av with
+  | [.int n] =>
+    if method = kTryUintBits then
+      some ⟨if n < 0 then .err .other pos else (tryUintBits bs pos n.toNat).map .u, none⟩
+    else if method = kTryBits then
+      some ⟨if n < 0 then .err .other pos else (tryBits bs pos n.toNat).map fun b => .bits n.toNat (byteVals b), none⟩
+    else none
+  | _ => none
+
+/-- a reader: current endian of the decoder, method name, arguments -/
+structure Reader where
+  cur : Endian
+  method : List Nat
+  args : List ArgVal
+deriving DecidableEq, Repr, Inhabited
+
+def posOfRes {α} : Res α → Nat
+  | .ok _ p => p
+  | .err _ p => p
+  | .ioerr _ p => p
+  | .panic _ p => p
+
+def Res.withPos {α} (q : Nat) : Res α → Res α
+  | .ok v _ => .ok v q
+  | .err e _ => .err e q
+  | .ioerr e _ => .ioerr e q
+  | .panic w _ => .panic w q
+
+/-- ONE read by reader `rd` at position `pos` of a buffer with denotation `den` — what every case
+    of the `readers` run checks.  `none`: the method is not modelled. -/
+def readAt (den : Bits) (pos : Nat) (rd : Reader) : Option Obs :=
+  match rawCall den pos rd.method rd.args with
+  | some o => some o
+  | none => call den pos rd.cur rd.method rd.args
+
+/-- the decoder's position after a read -/
+def posAfter (pos : Nat) : Option Obs → Nat
+  | some o => posOfRes o.res
+  | none => pos
+
+/-- child decoders: FieldStruct / FieldArray (decode.go:872,886: same bitBuf), FramedFn / LimitedFn /
+    RangeFn (:963-1003: a SectionReader [0, pos+n) of the buffer), SeekAbs(pos, fn) called with the
+    decoder at `back` (:763: same decoder, position restored afterwards) -/
+inductive ChildKind
+  | struct | array | framed (n : Nat) | limited (n : Nat) | range (n : Nat) | seekFn (back : Nat)
+deriving DecidableEq, Repr, Inhabited
+
+inductive Step
+  | read (pos : Nat) (rd : Reader)                 -- SeekAbs(pos); M
+  | relRead (pos n : Nat) (rd : Reader)            -- SeekAbs(pos+n); SeekRel(-n); M
+  | peek (pos : Nat) (n : Int)                     -- SeekAbs(pos); TryPeekBits(n)
+  | peekFind (pos : Nat) (cur : Endian) (nBits : Nat) (maxLen : Int) (target : Nat)
+                                                   -- SeekAbs(pos); TryPeekFind(nBits, nBits, maxLen, v == target)
+  | bitsLeft (pos : Nat)                           -- SeekAbs(pos); BitsLeft()
+  | getPos (pos : Nat)                             -- SeekAbs(pos); Pos()
+  | child (k : ChildKind) (pos : Nat) (rd : Reader) -- SeekAbs(pos); M inside a child decoder
+deriving DecidableEq, Repr, Inhabited
+
+inductive SObs
+  | seekErr                                  -- IOPanic of SeekAbs / SeekRel
+  | rangeErr                                 -- IOPanic of BitBufRange (range beyond the buffer)
+  | rd (o : Option Obs)
+  | peek (r : Res Nat)
+  | find (r : Res (Option (Nat × Nat)))      -- (count, value) of the unit found
+  | num (v : Int) (pos : Nat)
+  | child (o : Option Obs) (parentPos : Nat)
+deriving DecidableEq, Repr, Inhabited
+
+/-- decode.go:763 trySeekAbs: positions beyond the end are rejected, the position is unchanged -/
+def seekAbs (den : Bits) (p : Nat) : Option Nat := if p > den.length then none else some p
+
+/-- decode.go:795 TrySeekRel = trySeekAbs(d.Pos()+delta); a negative target is the bit reader's error -/
+def seekRel (den : Bits) (cur : Nat) (delta : Int) : Option Nat :=
+  let t : Int := (cur : Int) + delta
+  if t < 0 then none else seekAbs den t.toNat
+
+/-- decode.go:490 TryPeekBits: `start := pos; n, err := TryUintBits(nBits); seek(start)` -/
+def peekBits (den : Bits) (pos : Nat) (n : Int) : Res Nat :=
+  Res.withPos pos (if n < 0 then .err .other pos else tryUintBits den pos n.toNat)
+
+/-- decode.go:502 TryPeekFind with seekBits = nBits > 0: the loop `for !(maxLen > 0 && count >= maxLen)
+    { v = TryU(nBits); if fn(v) break; count += seekBits; seek(start+count) }`, every exit seeks back -/
+def peekFindLoop (den : Bits) (cur : Endian) (start nBits : Nat) (maxLen : Int) (target : Nat) :
+    Nat → Nat → Res (Option (Nat × Nat))
+  | 0, _ => .ok none start
+  | fuel+1, count =>
+    if maxLen > 0 ∧ (count : Int) ≥ maxLen then .ok none start
+    else match tryUEndian den (start + count) nBits cur with
+      | .ok v _ => if v = target then .ok (some (count, v)) start
+                   else peekFindLoop den cur start nBits maxLen target fuel (count + nBits)
+      | .err e _ => .err e start
+      | .ioerr e _ => .ioerr e start
+      | .panic w p => .panic w p
+
+def peekFind (den : Bits) (cur : Endian) (start nBits : Nat) (maxLen : Int) (target : Nat) : Res (Option (Nat × Nat)) :=
+  peekFindLoop den cur start nBits maxLen target (den.length + 2) 0
+
+/-- one step on the decoder in state `st` (its position): observation and new position -/
+def execStep (den : Bits) (st : Nat) : Step → SObs × Nat
+  | .read p rd =>
+    match seekAbs den p with
+    | none => (.seekErr, st)
+    | some q => let o := readAt den q rd; (.rd o, posAfter q o)
+  | .relRead p n rd =>
+    match seekAbs den (p + n) with
+    | none => (.seekErr, st)
+    | some q =>
+      match seekRel den q (-(n : Int)) with
+      | none => (.seekErr, q)
+      | some q2 => let o := readAt den q2 rd; (.rd o, posAfter q2 o)
+  | .peek p n =>
+    match seekAbs den p with
+    | none => (.seekErr, st)
+    | some q => let r := peekBits den q n; (.peek r, posOfRes r)
+  | .peekFind p cur nBits maxLen target =>
+    match seekAbs den p with
+    | none => (.seekErr, st)
+    | some q => let r := peekFind den cur q nBits maxLen target; (.find r, posOfRes r)
+  | .bitsLeft p =>
+    match seekAbs den p with
+    | none => (.seekErr, st)
+    | some q => (.num ((den.length : Int) - q) q, q)
+  | .getPos p =>
+    match seekAbs den p with
+    | none => (.seekErr, st)
+    | some q => (.num q q, q)
+  | .child .struct p rd | .child .array p rd =>
+    match seekAbs den p with
+    | none => (.seekErr, st)
+    | some q =>
+      -- the child reads the parent's bitBuf: the parent's position moves with it
+      let o := readAt den q rd
+      (.child o (posAfter q o), posAfter q o)
+  | .child (.range n) p rd =>
+    match seekAbs den p with
+    | none => (.seekErr, st)
+    | some q =>
+      if q + n > den.length then (.rangeErr, q)
+      else (.child (readAt (den.take (q + n)) q rd) q, q)
+  | .child (.framed n) p rd =>
+    match seekAbs den p with
+    | none => (.seekErr, st)
+    | some q =>
+      if q + n > den.length then (.rangeErr, q)
+      else
+        let o := readAt (den.take (q + n)) q rd
+        match seekRel den q n with               -- d.SeekRel(nBits)
+        | none => (.seekErr, q)
+        | some q2 => (.child o q2, q2)
+  | .child (.limited n) p rd =>
+    match seekAbs den p with
+    | none => (.seekErr, st)
+    | some q =>
+      if q + n > den.length then (.rangeErr, q)
+      else
+        let o := readAt (den.take (q + n)) q rd
+        let decodeLen : Int := (posAfter q o : Int) - q   -- endPos - startPos
+        match seekRel den q decodeLen with       -- d.SeekRel(decodeLen)
+        | none => (.seekErr, q)
+        | some q2 => (.child o q2, q2)
+  | .child (.seekFn back) p rd =>
+    match seekAbs den back with
+    | none => (.seekErr, st)
+    | some b =>
+      -- SeekAbs(p, fn): oldPos := Pos(); seek p; fn(d); seek oldPos
+      match seekAbs den p with
+      | none => (.seekErr, b)
+      | some q =>
+        let o := readAt den q rd
+        match seekAbs den b with
+        | none => (.seekErr, posAfter q o)
+        | some b2 => (.child o b2, b2)
+
+/-- a history on one decoder that starts at position `st` -/
+def runHistory (den : Bits) : Nat → List Step → List SObs
+  | _, [] => []
+  | st, s :: rest => let (o, st') := execStep den st s; o :: runHistory den st' rest
+
+/-- the SINGLE-READ description of a step: a function of the denotation and the step alone -/
+def stepObs (den : Bits) : Step → SObs
+  | .read p rd => if p > den.length then .seekErr else .rd (readAt den p rd)
+  | .relRead p n rd => if p + n > den.length then .seekErr else .rd (readAt den p rd)
+  | .peek p n => if p > den.length then .seekErr else .peek (peekBits den p n)
+  | .peekFind p cur nBits maxLen target =>
+    if p > den.length then .seekErr else .find (peekFind den cur p nBits maxLen target)
+  | .bitsLeft p => if p > den.length then .seekErr else .num ((den.length : Int) - p) p
+  | .getPos p => if p > den.length then .seekErr else .num p p
+  | .child .struct p rd | .child .array p rd =>
+    if p > den.length then .seekErr else .child (readAt den p rd) (posAfter p (readAt den p rd))
+  | .child (.range n) p rd =>
+    if p > den.length then .seekErr else if p + n > den.length then .rangeErr
+    else .child (readAt (den.take (p + n)) p rd) p
+  | .child (.framed n) p rd =>
+    if p > den.length then .seekErr else if p + n > den.length then .rangeErr
+    else .child (readAt (den.take (p + n)) p rd) (p + n)
+  | .child (.limited n) p rd =>
+    if p > den.length then .seekErr else if p + n > den.length then .rangeErr
+    else
+      let o := readAt (den.take (p + n)) p rd
+      if posAfter p o > den.length then .seekErr else .child o (posAfter p o)
+  | .child (.seekFn back) p rd =>
+    if back > den.length then .seekErr else if p > den.length then .seekErr
+    else .child (readAt den p rd) back
+
+end FqModel.C02
